@@ -1,6 +1,7 @@
 import Model.TypeStr
 import Model.FrameCrash
 import Model.RowsCrash
+import Model.Dispatch
 import Driver.Util
 namespace Driver.C05
 open Util
@@ -80,7 +81,11 @@ def step (_ : Unit) (ws : List String) : Unit × String :=
        | none =>
          match frameOps ws with
          | some a => a
-         | none => "bad-op")
+         | none =>
+           -- disp / beh / disparms / dispctx / dispsites / dispkinds / dispfact / e2e: Model/Dispatch.lean
+           match Dispatch.answer ws with
+           | some a => a
+           | none => "bad-op")
 
 def init : Unit := ()
 end Driver.C05
